@@ -22,7 +22,7 @@ type c20 struct{ base }
 
 func init() {
 	runner.Register(&c20{base{id: "C20", level: "exploration",
-		rule:        "exhaustive: all subsets of <=2 registrations (thorough <=3) from a pool of (table in {tba,tbb}) x (kind in {key, filter, conditional, update}) x (text pool with anagram pairs 'a = :b' / 'b = :a', 'SET x = :y' / 'SET y = :x', prefix pairs, letter-case pairs, surrounding- and interior-whitespace variants) x every request over the same pool x native mode on/off x interpreter installed before/after CreateTable, both adapters. Callbacks are instrumented: each records its identity and returns the OPPOSITE of what the built-in interpreter yields. Oracle: the set of callbacks that ran = {the one registered for exactly this table, kind and text (up to surrounding whitespace; interior whitespace amount: either)} or empty; the operation's outcome = that callback's verdict / mutation; with no matcher the built-in result; with no updater an unsupported-feature error and an untouched item; native mode off: no callback runs. Plus parallel cases: 2-8 goroutines, each with its OWN client and native interpreter holding anagram / whitespace variants of the registrations of the others, dispatch 40 requests each at the same time and check their own dispatch with the same oracle (shared state between interpreter instances). non-trivial = at least one registration differs from the request in exactly one of table / kind / text; distinct by (adapter, registration set, request, mode, order).",
+		rule:        "exhaustive: all subsets of <=2 registrations (thorough <=3) from a pool of (table in {tba,tbb}) x (kind in {key, filter, conditional, update}) x (text pool with anagram pairs 'a = :b' / 'b = :a', 'SET x = :y' / 'SET y = :x', prefix pairs, letter-case pairs, surrounding- and interior-whitespace variants) x every request over the same pool x native mode on/off x interpreter installed before/after CreateTable, both adapters. Callbacks are instrumented: each records its identity and returns the OPPOSITE of what the built-in interpreter yields. Oracle: the set of callbacks that ran = {the one registered for exactly this table, kind and text (up to surrounding whitespace; interior whitespace amount: either)} or empty; the operation's outcome = that callback's verdict / mutation; with no matcher the built-in result; with no updater an unsupported-feature error and an untouched item; native mode off: no callback runs. Plus parallel cases: 2-8 goroutines, each with its OWN client and native interpreter holding anagram / whitespace variants of the registrations of the others, dispatch 40 requests each at the same time and check their own dispatch with the same oracle (shared state between interpreter instances). non-trivial = at least one registration differs from the request in exactly one of table / kind / text; distinct by (adapter, registration set, request, mode, order). Requests composed of registered texts (no updater: unsupported, nothing runs); key-existence guards (attribute_exists / attribute_not_exists of a key attribute, six spellings) served by registered matchers: called, verdict used; prefix-named tables keep their callbacks when one of them is deleted.",
 		assumptions: commonAssumptions}})
 }
 
